@@ -133,8 +133,8 @@ func (m *c16M) returnStmt(f *c16Frame, x *ast.ReturnStmt) c16Ctl {
 		for _, c := range f.results {
 			vals = append(vals, c.v)
 		}
-	case len(x.Results) == 1 && len(f.results) > 1:
-		vals = m.evalMulti(f, x.Results[0], len(f.results))
+	case len(x.Results) == 1 && f.nres > 1: // `return g(...)` forwarding several results
+		vals = m.evalMulti(f, x.Results[0], f.nres)
 	default:
 		for _, e := range x.Results {
 			vals = append(vals, c16Copy(m.eval(f, e)))
